@@ -1,7 +1,7 @@
 (* Primality of the BLS12-381 scalar field order r, proved inside Coq (no axiom, no external
-   certificate checker): Lucas test with the complete factorisation of r - 1
-   (r - 1 = 2^32 * 3 * 11 * 19 * 10177 * 125527 * 859267 * 906349^2 * 2508409 * 2529403 * 52437899
-   * 254760293^2), base 7; the prime factors (all < 2^28) are certified by trial division.
+   certificate checker): Pocklington's test with the factored part
+   F = 2^32 * 3 * 906349^2 * 254760293^2 of r - 1 (F > sqrt r), base 7; the prime factors of F
+   (all < 2^28) are certified by trial division.
    All big-number computation is done on binary integers Z by vm_compute and transferred to the
    mathcomp statement [prime (Z.to_nat r)] through generic lemmas in which the modulus is a
    variable (so the unary number is never computed). *)
@@ -43,13 +43,15 @@ have -> : (p - 1).+1 = p by move: (prime_gt1 pp); lia.
 by rewrite -[in X in _ ^+ X](card_Fp pp) expf_card.
 Qed.
 
-(* Lucas / Pocklington test with the complete factorisation of N - 1 *)
-Lemma lucas_full (N a : nat) : (1 < N)%N ->
+(* Pocklington's test: F divides N - 1, N < (F + 1)^2, and for every prime q dividing F the base a
+   satisfies a^(N-1) = 1 (mod N) and gcd (a^((N-1)/q) - 1, N) = 1.  Then every prime factor p of N
+   has F | p - 1, so p^2 > N: N is prime. *)
+Lemma pocklington (N a F : nat) : (1 < N)%N -> (0 < F)%N -> (F %| N - 1)%N -> (N < (F + 1) ^ 2)%N ->
   (a ^ (N - 1) = 1 %[mod N])%N ->
-  (forall q, prime q -> (q %| N - 1)%N -> coprime ((a ^ ((N - 1) %/ q)) %% N - 1) N) ->
+  (forall q, prime q -> (q %| F)%N -> coprime ((a ^ ((N - 1) %/ q)) %% N - 1) N) ->
   prime N.
 Proof.
-move=> N1 aN H.
+move=> N1 F0 FN NF aN H.
 pose p := pdiv N; have pp : prime p := pdiv_prime N1; have pN : (p %| N)%N := pdiv_dvd N.
 have p1 := prime_gt1 pp.
 pose u : 'F_p := a%:R.
@@ -60,12 +62,14 @@ have N10 : (0 < N - 1)%N by lia.
 have unz : u != 0.
   by apply/eqP => u0; move: uN; rewrite u0 expr0n; case: (N - 1)%N N10 => // k _ /eqP; rewrite eq_sym oner_eq0.
 have up := fermat_Fp pp unz.
-suff dv : (N - 1 %| p - 1)%N.
-  have le : (N - 1 <= p - 1)%N by apply: dvdn_leq dv; lia.
-  have le2 : (p <= N)%N by apply: dvdn_leq pN; lia.
-  by have -> : N = p by lia.
-apply/dvdn_partP => // q; rewrite mem_primes => /and3P[pq _ qd].
+suff dv : (F %| p - 1)%N.
+  have le : (F <= p - 1)%N by apply: dvdn_leq dv; lia.
+  apply: ltn_pdiv2_prime; first by lia.
+  apply: leq_trans NF _; rewrite -/p leq_exp2r //; lia.
+apply/dvdn_partP => // q; rewrite mem_primes => /and3P[pq _ qF].
+have qd : (q %| N - 1)%N := dvdn_trans qF FN.
 rewrite p_part pfactor_dvdn //; last by lia.
+apply: leq_trans (dvdn_leq_log q N10 FN) _.
 rewrite leqNgt; apply/negP => lt.
 pose g := gcdn (N - 1) (p - 1).
 have ug : u ^+ g = 1 by apply: expr_gcd1.
@@ -84,7 +88,7 @@ have gq : (g %| (N - 1) %/ q)%N.
   exact: dvdn_mull.
 have ue : u ^+ ((N - 1) %/ q) = 1.
   by case/dvdnP: gq => c ->; rewrite mulnC exprM ug expr1n.
-have := H q pq qd; set b := (_ %% N)%N => cop.
+have := H q pq qF; set b := (_ %% N)%N => cop.
 have bp : (b %% p = 1)%N.
   rewrite /b (modn_dvdm _ pN); apply: Fp_nat_eq1 => //.
   by rewrite natrX.
@@ -161,12 +165,13 @@ by move=> <-.
 Qed.
 
 (* ------------------------------------------------------------------------------------------ *)
-(* the certificate checker: m - 1 = product of qs (with multiplicity), every q in qs is prime,
-   a^(m-1) = 1 mod m, gcd (a^((m-1)/q) - 1, m) = 1 for every q *)
+(* the certificate checker: F = product of qs (with multiplicity) divides m - 1, m < (F+1)^2, every
+   q in qs is prime, a^(m-1) = 1 mod m, gcd (a^((m-1)/q) - 1, m) = 1 for every q *)
 
 Definition lucas_check (m a : Z) (qs : seq Z) : bool :=
+  let F := foldr Z.mul 1%ZZ qs in
   [&& Z.ltb 1 m, Z.ltb 0 a,
-      Z.eqb (foldr Z.mul 1%ZZ qs) (Z.sub m 1),
+      Z.eqb (Z.modulo (Z.sub m 1) F) 0%ZZ && Z.ltb m (Z.mul (Z.add F 1) (Z.add F 1)),
       all check_prime (undup qs),
       Z.eqb (powm_pos m a (Z.to_pos (Z.sub m 1))) 1%ZZ
     & all (fun q => Z.eqb (Z.gcd (Z.sub (powm_pos m a (Z.to_pos (Z.div (Z.sub m 1) q))) 1) m) 1%ZZ) (undup qs)].
@@ -185,9 +190,14 @@ move=> pp; elim: s => [|x s IH]; first by rewrite big_nil dvdn1 => /eqP e; move:
 by rewrite big_cons Euclid_dvdM //= => /orP[->//|/IH ->]; rewrite orbT.
 Qed.
 
+Definition hide (P : Prop) : Prop := P.
+
 Theorem lucas_certificate (m a : Z) (qs : seq Z) : lucas_check m a qs -> prime (Z.to_nat m).
 Proof.
-case/andP=> /Z.ltb_spec0 m1 /and5P[/Z.ltb_spec0 a0 /Z.eqb_spec fact /allP primes0 /Z.eqb_spec pw /allP wit0].
+rewrite /lucas_check; set Fz := foldr Z.mul 1%ZZ qs.
+case/andP=> /Z.ltb_spec0 m1 /and5P[/Z.ltb_spec0 a0 /andP[/Z.eqb_spec fdiv0 /Z.ltb_spec0 fsq0] /allP primes0 /Z.eqb_spec pw /allP wit0].
+have fhid : hide ((m - 1) mod Fz = 0 /\ m < (Fz + 1) * (Fz + 1))%ZZ by split.
+clear fdiv0 fsq0.
 have primes q : q \in qs -> check_prime q by rewrite -mem_undup; apply: primes0.
 have wit q : q \in qs -> _ := fun h => wit0 q (etrans (mem_undup qs q) h).
 pose N := Z.to_nat m; pose A := Z.to_nat a.
@@ -197,37 +207,46 @@ have N1 : (1 < N)%N by lia.
 have N0 : (0 < N)%N by lia.
 have qpos : all (fun q => Z.ltb 0 q) qs.
   by apply/allP => q /primes /andP[/Z.ltb_spec0 q1 _]; apply/Z.ltb_spec0; lia.
-have factN : (N - 1 = \prod_(q <- qs) Z.to_nat q)%N.
-  by apply: Nat2Z.inj; rewrite (prod_to_nat qpos) fact; lia.
+pose F := (\prod_(q <- qs) Z.to_nat q)%N.
+have HF : Z.of_nat F = Fz by rewrite /F (prod_to_nat qpos).
+have F0 : (0 < F)%N.
+  rewrite /F big_seq; apply: prodn_cond_gt0 => q /(allP qpos) /Z.ltb_spec0; lia.
+have HN1 : Z.of_nat (N - 1) = (m - 1)%ZZ by lia.
+have [FN NF] : (F %| N - 1)%N /\ (N < (F + 1) ^ 2)%N.
+  case: fhid => fdiv fsq; split.
+    by rewrite /dvdn; apply/eqP; apply: Nat2Z.inj; rewrite (Zof_modn _ F0) HF HN1.
+  rewrite expnS expn1; apply/ltP/Nat2Z.inj_lt; rewrite -!multE Nat2Z.inj_mul -plusE Nat2Z.inj_add HF HN.
+  exact: fsq.
+clear fhid.
 have aN1 : (A ^ (N - 1) %% N = 1)%N.
   have e : Pos.to_nat (Z.to_pos (m - 1)) = (N - 1)%N by lia.
   have := powm_pos_nat A (Z.to_pos (m - 1)) N0; rewrite HN HA pw e => h.
   by apply: Nat2Z.inj; rewrite -h.
-apply: (@lucas_full N A) => //; first by rewrite aN1 modn_small.
-move=> q pq qd.
+apply: (@pocklington N A F) => //; first by rewrite aN1 modn_small.
+move=> q pq qF; have qd : (q %| N - 1)%N := dvdn_trans qF FN.
 have : has (fun x => q %| x)%N (map Z.to_nat qs).
-  by apply: prime_dvd_prod => //; rewrite big_map -factN.
+  by apply: prime_dvd_prod => //; rewrite big_map.
 case/hasP=> x /mapP[z zin ->] qz.
 have pz : prime (Z.to_nat z) by apply: check_primeP; apply: primes.
 have eq : q = Z.to_nat z by apply/eqP; rewrite -(dvdn_prime2 pq pz).
 have z1 : (1 < z)%ZZ by have /andP[/Z.ltb_spec0] := primes _ zin.
 have /Z.eqb_spec := wit _ zin.
+have q0 : (0 < q)%N := prime_gt0 pq.
 have ediv : Pos.to_nat (Z.to_pos ((m - 1) / z)) = ((N - 1) %/ q)%N.
-  have q0 : (0 < q)%N by rewrite eq; lia.
-  have := Zof_divn (N - 1) q0; rewrite eq.
-  have -> : Z.of_nat (N - 1) = (m - 1)%ZZ by lia.
-  have -> : Z.of_nat (Z.to_nat z) = z by lia.
+  have := Zof_divn (N - 1) q0; rewrite eq HN1.
+  have -> : Z.of_nat (Z.to_nat z) = z by clear -z1; lia.
   move=> h.
-  have pos : (0 < (m - 1) / z)%ZZ.
-    apply: Z.div_str_pos; split; first by lia.
-    have := dvdn_leq _ qd; rewrite eq; lia.
-  by lia.
+  have zle : (z <= m - 1)%ZZ.
+    have N10 : (0 < N - 1)%N by clear -N1; lia.
+    have le' : (Z.to_nat z <= N - 1)%N by rewrite -eq; apply: dvdn_leq qd.
+    by clear -le' HN1 z1; lia.
+  have pos : (0 < (m - 1) / z)%ZZ by apply: Z.div_str_pos; clear -z1 zle; lia.
+  by clear -h pos; lia.
 have := powm_pos_nat A (Z.to_pos ((m - 1) / z)) N0; rewrite HN HA ediv => ->.
 set b := (_ %% N)%N => g.
 rewrite /coprime; apply/eqP; apply: Nat2Z.inj.
 have b1 : (1 <= b)%N.
   rewrite lt0n; apply/eqP => b0.
-  have q0 : (0 < q)%N by rewrite eq; lia.
   have : (A ^ (N - 1) %% N = 0)%N.
     have -> : (A ^ (N - 1) = (A ^ ((N - 1) %/ q)) ^ q)%N by rewrite -expnM divnK.
     by rewrite -modnXm -/b b0 exp0n // mod0n.
@@ -237,9 +256,8 @@ Qed.
 
 (* ------------------------------------------------------------------------------------------ *)
 
-Definition r_factors : seq Z :=
-  (nseq 32 2 ++ [:: 3; 11; 19; 10177; 125527; 859267; 906349; 906349; 2508409; 2529403; 52437899;
-                    254760293; 254760293])%ZZ.
+(* F = 2^32 * 3 * 906349^2 * 254760293^2 > sqrt r; it divides r - 1 *)
+Definition r_factors : seq Z := (nseq 32 2 ++ [:: 3; 906349; 906349; 254760293; 254760293])%ZZ.
 
 Lemma r_certificate : lucas_check r 7%ZZ r_factors.
 Proof. by vm_compute. Qed.
